@@ -531,6 +531,17 @@ type SimNode struct {
 	Stopped  bool
 	LeftAt   time.Time
 	Departed bool // Leave() returned nil
+
+	// C01 monitor: the view of every member as of the previous quiescent check
+	lastView  map[string]viewRec
+	lastCheck time.Time
+}
+
+type viewRec struct {
+	inc    uint32
+	rank   int
+	addr   string
+	change time.Time // StateChange of the record
 }
 
 func (n *SimNode) ML() *memberlist.Memberlist { return n.M.Load() }
@@ -694,6 +705,39 @@ func (n *SimNode) CheckQuiescent() {
 			n.sink.add(n.Name, "C07/members-vs-table", "Members() returns %d nodes, the table holds %d live records", len(members), len(byName))
 		}
 		n.Ev.compare("quiescent", n.Ev.Present(), actual)
+	}
+	// C01 monitor: between two quiescent checks the view of a member that keeps its address never
+	// moves backwards in (incarnation, alive < suspect < dead/left). A dead or left record old enough to
+	// have been reaped (GossipToTheDeadTime) may legitimately have been forgotten and re-learnt.
+	{
+		cur := map[string]viewRec{}
+		for i := range v.Records {
+			r := &v.Records[i]
+			if isPlaceholder(r) {
+				continue
+			}
+			cur[r.Name] = viewRec{r.Incarnation, rankState(r.State), fmt.Sprintf("%x:%d", r.Addr, r.Port), r.StateChange}
+		}
+		now := time.Now()
+		if !n.lastCheck.IsZero() && now.Sub(n.lastCheck) >= n.Conf.GossipToTheDeadTime {
+			n.lastView = nil // too long ago: a record may have died, been reaped and come back since
+		}
+		n.lastCheck = now
+		for name, p := range n.lastView {
+			c, ok := cur[name]
+			if !ok || c.addr != p.addr || name == n.Name {
+				continue
+			}
+			back := c.inc < p.inc || (c.inc == p.inc && c.rank < p.rank)
+			if !back {
+				continue
+			}
+			if p.rank == 2 && now.Sub(p.change) >= n.Conf.GossipToTheDeadTime {
+				continue // may have been reaped in between
+			}
+			n.sink.add(n.Name, "C01/monitor/view-moved-backwards", "view of %s went from %s@%d (since %v) to %s@%d at the same address", name, []string{"alive", "suspect", "dead/left"}[p.rank], p.inc, p.change.Format("15:04:05.000"), []string{"alive", "suspect", "dead/left"}[c.rank], c.inc)
+		}
+		n.lastView = cur
 	}
 	// C02 invariant
 	if !v.Left {
